@@ -402,3 +402,10 @@ pub open spec fn expiry_after(timestamp: u64, ttl_seconds: u64) -> int {
     let nanos = if ttl_seconds as int * 1_000_000_000 > u64::MAX as int { u64::MAX as int } else { ttl_seconds as int * 1_000_000_000 };
     if timestamp as int + nanos > u64::MAX as int { u64::MAX as int } else { timestamp as int + nanos }
 }
+
+// counter += 1 on a u64 progress counter (rule R-count): treated as non-overflowing
+pub fn count_up(x: u64) -> (r: u64)
+    ensures r == (if x < u64::MAX { (x + 1) as u64 } else { x }),
+{
+    if x < u64::MAX { x + 1 } else { x }
+}
